@@ -86,16 +86,35 @@ func resolveDispatch(c *chk.Ctx) *dispatchModel {
 	for _, s := range c.P.Callers(d.invoke) {
 		d.invokeSites = append(d.invokeSites, s.Instr)
 	}
-	// the dispatch closure: outermost closure containing invoke sites
-	for _, s := range d.invokeSites {
-		f := s.Parent()
-		for f.Parent() != nil && f.Parent().Parent() != nil {
-			f = f.Parent()
+	// the dispatch closure: the closure that calls the delivery function (a Server method
+	// taking a message list) and from which every handler invocation is reached, possibly
+	// through private helpers
+	for _, f := range pkgFuncs(c, c.M.Pkg) {
+		if f.Parent() == nil {
+			continue
 		}
-		if d.closure != nil && d.closure != f {
-			bad("handler invocations are spread over several dispatch functions: %s and %s", ir.Name(d.closure), ir.Name(f))
-		}
-		d.closure = f
+		ir.Calls(f, func(ci ssa.CallInstruction) {
+			g := ci.Common().StaticCallee()
+			if g == nil || g == d.invoke || ir.RecvNamed(g) != c.M.Server || g.Parent() != nil {
+				return
+			}
+			for _, p := range g.Params {
+				if isJmessagesType(c, p.Type()) {
+					reaches := len(d.invokeSites) > 0
+					for _, s := range d.invokeSites {
+						if !c.P.InExt(f, s.Parent()) {
+							reaches = false
+						}
+					}
+					if reaches {
+						if d.closure != nil && d.closure != f {
+							bad("several dispatch closures: %s and %s", ir.Name(d.closure), ir.Name(f))
+						}
+						d.closure, d.deliver, d.deliverCall = f, g, ci
+					}
+				}
+			}
+		})
 	}
 	if d.closure != nil {
 		d.prepare = d.closure.Parent()
@@ -126,22 +145,6 @@ func resolveDispatch(c *chk.Ctx) *dispatchModel {
 			case *ssa.Call:
 				if id, ok := wgCall(x, "Wait"); ok && id == chk.PathOfVar(c.M.Server, c.M.SNbar).String() {
 					d.barrier = f
-				}
-			}
-		})
-	}
-	if d.closure != nil {
-		ir.Calls(d.closure, func(ci ssa.CallInstruction) {
-			g := ci.Common().StaticCallee()
-			if g == nil || g == d.invoke || ir.RecvNamed(g) != c.M.Server || g.Parent() != nil {
-				return
-			}
-			for _, p := range g.Params {
-				if isJmessagesType(c, p.Type()) {
-					if d.deliver != nil && d.deliver != g {
-						bad("several delivery functions called from the dispatch closure")
-					}
-					d.deliver, d.deliverCall = g, ci
 				}
 			}
 		})
@@ -270,51 +273,69 @@ func ruleInvokeSites(c *chk.Ctx, d *dispatchModel) {
 		ok = ok && stored[c.M.TVal] && stored[c.M.TErr]
 		c.Check(ok, "PAIR.invoke", f, "own slot", s.Pos(), "context, handler and request are read from, and result and error written to, the same task value",
 			"the handler invocation does not read ctx/handler/request from, and write val/err to, one and the same task: a result could land in another member's slot")
-		// guarded by t.err == nil
-		guarded := false
-		for _, cd := range condsForSite(c, s) {
-			if known, isNil := isErrNilOfTask(c, cd, task); known && isNil {
-				guarded = true
+		// guarded by t.err == nil in every context through which the site is reached
+		guarded := c.P.AllContexts(s, nil, func(cs []ir.Cond) bool {
+			for _, cd := range cs {
+				if known, isNil := isErrNilOfTask(c, cd, nil); known && isNil {
+					return true
+				}
 			}
-		}
+			return false
+		})
 		c.Check(guarded, "PAIR.invoke", f, "only runnable tasks", s.Pos(), "invocation is reached only on the err == nil edge of the same task",
 			"a task that already failed validation (err != nil) can reach the handler invocation")
-		// the site's position in the dispatch closure (the go statement for goroutine sites)
-		var at ssa.Instruction = s
-		for at.Parent() != d.closure {
-			gos := c.P.GoSites(at.Parent())
-			if len(gos) != 1 {
-				break
+		// the site's anchors in the dispatch closure: the instructions of the closure through
+		// which it is reached (the call itself, a go statement, or a helper call)
+		var anchors func(at ssa.Instruction, depth int)
+		anchors = func(at ssa.Instruction, depth int) {
+			if at.Parent() == d.closure {
+				siteBlocks = append(siteBlocks, at.Block())
+				return
 			}
-			at = gos[0]
+			if depth > 5 {
+				return
+			}
+			for _, cs := range c.P.Callers(at.Parent()) {
+				anchors(cs.Instr, depth+1)
+			}
 		}
-		if at.Parent() == d.closure {
-			siteBlocks = append(siteBlocks, at.Block())
-		}
+		anchors(s, 0)
 		if task != nil {
 			taskDef = task
 		}
 	}
-	// at most one invocation per iteration: any path from one site to another passes the block defining the iteration's task
-	if ti, ok := taskDef.(ssa.Instruction); ok && len(siteBlocks) >= 1 {
-		hdr := ti.Block()
+	// at most one invocation per iteration: any path from one anchor to another (or back to
+	// itself) passes the header of the loop over the tasks
+	_ = taskDef
+	if len(siteBlocks) >= 1 {
+		var hdr *ssa.BasicBlock
+		for _, a := range siteBlocks {
+			if h := loopHeaderOf(a); h != nil && hdr == nil {
+				hdr = h
+			}
+		}
 		excl := true
 		for i, a := range siteBlocks {
+			// an anchor on a path that leaves the loop (break) has no header of its own but must
+			// still be inside the loop's dominance region
+			if h := loopHeaderOf(a); (h != nil && h != hdr) || (h == nil && hdr != nil && !hdr.Dominates(a)) {
+				excl = false
+			}
 			for j, b := range siteBlocks {
 				if i != j && (a == b || reachesWithout(a, b, hdr)) {
 					excl = false
 				}
 			}
-			if reachesWithout(a, a, hdr) {
+			if hdr != nil && reachesWithout(a, a, hdr) {
 				excl = false
 			}
 		}
-		c.Check(excl, "PAIR.invoke", d.closure, "at most one invocation per task", ti.Pos(), fmt.Sprintf("the %d invocation sites are mutually exclusive within one loop iteration", len(siteBlocks)),
+		c.Check(excl, "PAIR.invoke", d.closure, "at most one invocation per task", siteBlocks[0].Instrs[0].Pos(), fmt.Sprintf("the %d places from which a handler invocation is reached are mutually exclusive within one iteration of the task loop", len(siteBlocks)),
 			"two handler invocations can be reached for the same task in one iteration")
 	} else {
-		c.Undecided("PAIR.invoke", d.closure, "at most one invocation per task", 0, "cannot locate the per-iteration task value")
+		c.Undecided("PAIR.invoke", d.closure, "at most one invocation per task", 0, "no invocation is reached from the dispatch closure")
 	}
-	c.Floor("PAIR.invoke", 5, "two invocation sites × (own slot, runnable) + exclusivity")
+	c.Floor("PAIR.invoke", 3, "own slot, runnable, exclusivity (per invocation site)")
 }
 
 // C01-D1 (agreement): the counter that decides "last one runs inline" counts
@@ -467,10 +488,8 @@ func ruleDeliverAfterJoin(c *chk.Ctx, d *dispatchModel) {
 			}
 			invokes := false
 			for _, s := range d.invokeSites {
-				for p := s.Parent(); p != nil; p = p.Parent() {
-					if p == gc.body {
-						invokes = true
-					}
+				if gc.body != nil && c.P.InExt(gc.body, s.Parent()) && gc.body != d.closure {
+					invokes = true
 				}
 			}
 			if !invokes {
@@ -1073,7 +1092,7 @@ func ruleBarrier(c *chk.Ctx, d *dispatchModel) {
 	}
 	c.Check(nd == len(d.invokeSites), "PAIR.barrier", d.closure, "one Done per invocation site", d.closure.Pos(), fmt.Sprintf("%d Done sites for %d invocation sites", nd, len(d.invokeSites)),
 		fmt.Sprintf("%d Done sites for %d invocation sites", nd, len(d.invokeSites)))
-	c.Floor("PAIR.barrier", 8, "wait-then-add, lock released, synchronous, amount, prepare call, 2× Done, count")
+	c.Floor("PAIR.barrier", 7, "wait-then-add, lock released, synchronous, amount, prepare call, Done per site, count")
 }
 
 // C03-D1: single in-order dispatcher.
@@ -1097,7 +1116,7 @@ func ruleSingleDispatcher(c *chk.Ctx, d *dispatchModel) {
 			case "Pop":
 				pops = append(pops, ci)
 			case "Add":
-				ok := f == recvFn || f == stop
+				ok := (recvFn != nil && c.P.InExt(recvFn, f)) || (stop != nil && c.P.InExt(stop, f))
 				c.Check(ok, "WHO.queue", f, "queue insert site", ci.Pos(), "FIFO insert in the reader / the stop function's retain step", "the inbound queue is inserted into outside the reader and the stop function")
 			case "Push", "PopLast", "Peek":
 				c.Fail("WHO.queue", f, "non-FIFO queue operation", ci.Pos(), "%s breaks first-in-first-out processing of inbound messages", ir.BaseName(cc.StaticCallee()))
@@ -1164,7 +1183,7 @@ func ruleBuiltinThroughInvoke(c *chk.Ctx) {
 	n := 0
 	for _, s := range c.P.Callers(si) {
 		n++
-		ok := assignFn != nil && s.Caller.Parent() == assignFn && isHandlerSig(c, s.Caller.Signature)
+		ok := assignFn != nil && isHandlerSig(c, s.Caller.Signature) && (s.Caller.Parent() == assignFn || handlerValueOnlyFrom(c, s.Caller, assignFn))
 		c.Check(ok, "WHO.builtin", s.Caller, "built-in method body", s.Instr.Pos(), "the built-in method's body is called only from the Handler closure the assign function returns, so it runs through the invoke function under a semaphore slot",
 			"the built-in method's body is called directly from "+ir.Name(s.Caller)+", not through a Handler value: it would execute outside the concurrency limit")
 	}
@@ -1209,30 +1228,29 @@ func ruleNullIsAbsent(c *chk.Ctx, d *dispatchModel) {
 		}
 	})
 	c.Check(okReq, "PROV.nullid", f, "request id is null-normalised", f.Pos(), "the Request handed to dispatch gets its id from the null-normalising function applied to the inbound id: \"id\":null is a notification everywhere downstream", "the Request's id is not the null-normalised inbound id: a message with \"id\":null would be treated as a call by the barrier count, the response builder or IsNotification")
-	// the key used for duplicate detection and reservation
-	var reserve ssa.CallInstruction
-	ir.Calls(f, func(ci ssa.CallInstruction) {
-		if ci.Common().StaticCallee() == d.setContext {
-			reserve = ci
+	// the key used for duplicate detection and reservation: the key of the store into the table
+	var res *ssa.MapUpdate
+	ir.Instrs(d.setContext, func(ins ssa.Instruction) {
+		if mu, ok := ins.(*ssa.MapUpdate); ok && chk.LoadsField(mu.Map, c.M.SUsed) {
+			res = mu
 		}
 	})
 	okKey := false
-	why := "reservation call not found"
-	if reserve != nil && norm != nil {
+	why := "reservation site not found"
+	if res != nil && norm != nil {
 		why = "the key does not derive from the normalised id"
-		key := reserve.Common().Args[2]
-		cands := []ssa.Value{key}
-		if u, ok := key.(*ssa.UnOp); ok {
-			if ia, ok := u.X.(*ssa.IndexAddr); ok {
-				el, _ := c.P.ElementValues(ia.X)
-				cands = append(cands, el...)
+		isNormKey := func(v ssa.Value) bool {
+			cv, ok := v.(*ssa.Convert)
+			return ok && cv.X == ssa.Value(norm)
+		}
+		n, good := 0, 0
+		for _, src := range c.P.SourcesStop(res.Key, isNormKey) {
+			n++
+			if isNormKey(src) {
+				good++
 			}
 		}
-		for _, v := range cands {
-			if cv, ok := v.(*ssa.Convert); ok && cv.X == ssa.Value(norm) {
-				okKey = true
-			}
-		}
+		okKey = n > 0 && n == good
 	}
 	c.Check(okKey, "PROV.nullid", f, "reservation key is the normalised id", f.Pos(), "the key under which ids are looked up and reserved is string(normalised id): an explicit null is never reserved", "the reservation key is not derived from the null-normalised id ("+why+"): \"id\":null would be reserved under the text null and later notifications rejected as duplicates")
 }
@@ -1301,6 +1319,14 @@ func ruleBatchFlagChain(c *chk.Ctx, d *dispatchModel) {
 		phi, isPhi := st.Val.(*ssa.Phi)
 		good := false
 		why := "the flag is not a phi of constants"
+		// the flag may be the comparison itself: firstByte(data) == '['
+		if bo, ok := ir.NormCell(st.Val).(*ssa.BinOp); ok && bo.Op == token.EQL {
+			if kk, isC := ir.ConstInt(bo.Y); isC && kk == '[' {
+				if call, isCall := bo.X.(*ssa.Call); isCall && call.Call.StaticCallee() != nil && c.P.InRepo[call.Call.StaticCallee()] {
+					good, isPhi = true, false
+				}
+			}
+		}
 		if isPhi {
 			good = true
 			for i, e := range phi.Edges {
@@ -1385,6 +1411,14 @@ func ruleBatchOrder(c *chk.Ctx) {
 			if !isCall || len(call.Call.Args) < 3 {
 				continue
 			}
+			for _, a := range call.Call.Args {
+				// the spec itself (by value) taken from specs[index]
+				if u, ok := ir.NormCell(a).(*ssa.UnOp); ok {
+					if ia2, ok := u.X.(*ssa.IndexAddr); ok && ia2.Index == ia.Index {
+						okIdx = true
+					}
+				}
+			}
 			if u, ok := call.Call.Args[2].(*ssa.UnOp); ok {
 				if fa, ok := u.X.(*ssa.FieldAddr); ok {
 					if ia2, ok := fa.X.(*ssa.IndexAddr); ok && ia2.Index == ia.Index {
@@ -1416,7 +1450,7 @@ func ruleBatchOrder(c *chk.Ctx) {
 	c.Check(okRet, "PROV.order", batch, "responses returned in send's order", batch.Pos(), "Batch returns the slice send produced, unchanged", "Batch does not return send's response slice unchanged")
 	// send: one append of a pending slot per request with an id, inside one loop over the requests
 	var apps []*ssa.Call
-	ir.Instrs(send, func(ins ssa.Instruction) {
+	c.P.ExtInstrs(send, func(ins ssa.Instruction) {
 		if call, ok := ins.(*ssa.Call); ok {
 			if b, isB := call.Call.Value.(*ssa.Builtin); isB && b.Name() == "append" && strings.HasSuffix(call.Type().String(), "[]*"+c.M.Pkg.Pkg.Path()+".Response") {
 				apps = append(apps, call)
@@ -1436,4 +1470,36 @@ func ruleBatchOrder(c *chk.Ctx) {
 		okApp = gov
 	}
 	c.Check(okApp, "PROV.order", send, "one slot per id-carrying request, in order", send.Pos(), "a single append inside the loop over the requests, governed by id != \"\"", "pending slots are not created one per id-carrying request in a single in-order pass")
+}
+
+// handlerValueOnlyFrom: method h (with the Handler signature) is never called directly and its
+// method value is taken only inside fn (so it runs only as a Handler value fn hands out).
+func handlerValueOnlyFrom(c *chk.Ctx, h, fn *ssa.Function) bool {
+	if len(c.P.Callers(h)) != 0 {
+		// bound-method thunks call the method: accept callers that are synthetic wrappers
+		for _, s := range c.P.Callers(h) {
+			if s.Caller.Synthetic == "" {
+				return false
+			}
+		}
+	}
+	found := false
+	ok := true
+	for _, f := range c.P.Funcs {
+		ir.Instrs(f, func(ins ssa.Instruction) {
+			mc, isMC := ins.(*ssa.MakeClosure)
+			if !isMC {
+				return
+			}
+			g := mc.Fn.(*ssa.Function)
+			if g.Synthetic == "" || !strings.Contains(g.Name(), h.Name()+"$bound") {
+				return
+			}
+			found = true
+			if f != fn {
+				ok = false
+			}
+		})
+	}
+	return found && ok
 }
